@@ -6,3 +6,8 @@ if [ ! -d "$HERE/.deps/z3" ]; then
       --target "$HERE/.deps" z3-solver || exit 1
 fi
 PYTHONPATH="$HERE/.deps" /venv/bin/python -c "import z3; print('z3', z3.get_version_string())"
+# optional second engine for the thorough tier (CrossHair on leaf kernels); failure to install is not fatal
+if [ ! -d "$HERE/.deps_crosshair/crosshair" ]; then
+  PIP_NO_INDEX=1 /venv/bin/pip install --quiet --no-index --find-links /opt/veriftools/wheels \
+      --target "$HERE/.deps_crosshair" crosshair-tool >/dev/null 2>&1 || true
+fi
